@@ -343,6 +343,31 @@ def sequence_stream(ctx, rng, n):
                           "(fill computed from each statement's own address)", inp, expected=img.hex(), observed=r.summary())
 
 
+    # ---- the parity of a later pass of a '.repeat': every word directive (explicit, implicit list; literal, expression,
+    # label operand) followed by an odd number of bytes, in a block of 2-5 passes that starts at an even address: pass 2 puts
+    # the word at an odd address - an error whatever pass 1 did; with an even number of bytes every pass is fine
+    rrng = ctx.rng("c06-repeat-parity")
+    wforms = [(".word 1234", bytes([0o234, 0o2])), (".word 1234+0", bytes([0o234, 0o2])), (".dword 200001", bytes([1, 0, 1, 0])),
+              ("1234", bytes([0o234, 0o2])), (".word 1, 2", bytes([1, 0, 2, 0])), (".blkw 1", bytes(2))]
+    for wtext, wbytes in wforms:
+        for nbytes in (1, 2, 3):
+            for passes in ((2, 3, 5) if ctx.thorough else (rrng.choice([2, 3, 5]),)):
+                tail = ".byte " + ", ".join(str(rrng.randrange(1, 8)) for _ in range(nbytes))
+                tb = bytes(int(x) for x in tail[6:].split(", "))
+                text = ".link 1000\n.repeat %d {\n\t%s\n\t%s\n}\n" % (passes, wtext, tail)
+                r = impl.assemble([("/t/m.mac", text)])
+                inp = {"source": text, "included": []}
+                ctx.case(("repeat-parity", text))
+                ctx.count("repeat-parity programs")
+                if nbytes % 2 == 1 and wtext != ".blkw 1":
+                    if r.outcome == "ok" or "odd-address" not in r.error_ids():
+                        ctx.violation("a word directive at an odd address in a later pass of a '.repeat' was assembled", inp, expected="odd-address", observed=r.summary())
+                elif nbytes % 2 == 0:
+                    if r.outcome != "ok" or r.code != (wbytes + tb) * passes:
+                        ctx.violation("a '.repeat' of word data and an even number of bytes did not emit exactly the stated bytes", inp,
+                                      expected=((wbytes + tb) * passes).hex(), observed=r.summary())
+
+
 def search(ctx, broken):
     if not ctx.thorough:
         ctx.thorough = True
